@@ -332,7 +332,10 @@ def _width_obligations(ctx, once):
                     once.check(ok, f"{q}: spec `{shown}` fits its {W}-character field for every finite value", node,
                                None if ok else (f"a negative value with a three-digit exponent renders {mw} characters" if mw else "fixed notation is unbounded"),
                                key=f"C13-R1|{q}|spec {what}")
-    ctx.check(n >= 8, f"format-width rule bound to {n} floating-point specs in writer functions", BULK + ":1", nontrivial=False)
+    if n >= 8:
+        ctx.ok(f"format-width rule bound to {n} floating-point specs in writer functions", BULK + ":1", nontrivial=False)
+    else:
+        ctx.error(f"format-width rule bound to {n} floating-point specs in writer functions (at least 8 expected)", BULK + ":1")
 
 
 def _arm_value(atom, facts, allowed):
@@ -745,50 +748,37 @@ def _grids(ctx, once):
         vals, fine = _arm_value(X, e.facts, (8, 16))
         if not fine:
             g.bad({"lengths of form.format(x) not excluded before data is written": sorted(vals)[:8]}, e.node)
-            continue
-        _, tmpl, data = vecwrite_parts(e)
-        if not isinstance(tmpl, S):
-            ctx.error("wtgrids: template shape", e.node, show(tmpl))
-            continue
-        if not vals:
-            continue            # the tests passed on the way contradict each other: the call cannot be reached
-        lines, term = M.split_lines(tmpl.p)
-        known = all(it[0] in ("text", "field") or (it[0] == "sub" and it[1] == form) for it in M.template_items(tmpl))
-        if not known:
-            ctx.error("wtgrids: template shape", e.node, repr(tmpl))
-            continue
-        if not term or not lines:
-            chk(False, f"wtgrids: template {tmpl!r} ends its last line", e.node, key=f"wtgrids-nl|{tmpl!r}")
-            continue
-        for i, ln in enumerate(lines):
-            ok, detail, lay0 = True, None, None
-            for Wf in sorted(vals):
+    # case split on the rendered width of a coordinate: the function is evaluated again with len(form.format(x)) = 8 and = 16
+    for Wf in (16, 8):
+        Ep = engine(ctx, BULK, "wtgrids", pins={X: Wf})
+        for e in [x for x in Ep.events("call") if is_vecwrite(x)]:
+            _, tmpl, data = vecwrite_parts(e)
+            if not isinstance(tmpl, S) or not all(it[0] in ("text", "field") or (it[0] == "sub" and it[1] == form) for it in M.template_items(tmpl)):
+                ctx.error("wtgrids: template shape", e.node, show(tmpl) if not isinstance(tmpl, S) else repr(tmpl))
+                continue
+            lines, term = M.split_lines(tmpl.p)
+            if not term or not lines:
+                chk(False, f"wtgrids: template {tmpl!r} ends its last line", e.node, key=f"wtgrids-nl|{tmpl!r}")
+                continue
+            for i, ln in enumerate(lines):
                 lay = line_layout(ln, Wf)
-                lay0 = lay0 or lay
                 head = lay["head"] or ""
                 W = 16 if "*" in head else 8
                 per = 4 if W == 16 else 8
+                inst = f"wtgrids: line `{head}` has an 8-column head and {lay['fields']} <= {per} fields of width {W}"
+                key = f"wtgrids-line|{tmpl!r}|{i}|{Wf}"
                 if not lay["ok"]:
-                    ok = None
-                    break
-                if not (len(head) == 8 and not lay["stray"] and lay["fields"] <= per and all(w == W for w in lay["widths"])):
-                    ok = False
-                    detail = dict({k: (v if k != "widths" else [str(w) for w in v]) for k, v in lay.items()}, **{"when form renders in": Wf})
-                    break
-            head = lay0["head"] or ""
-            W = 16 if "*" in head else 8
-            per = 4 if W == 16 else 8
-            inst = f"wtgrids: line `{head}` has an 8-column head and {lay0['fields']} <= {per} fields of width {W}"
-            if ok is None:
-                if f"wtgrids-line|{tmpl!r}|{i}" not in once.seen:
-                    once.seen.add(f"wtgrids-line|{tmpl!r}|{i}")
-                    ctx.error(inst, e.node, repr(tmpl))
-                continue
-            chk(ok, inst, e.node, detail, key=f"wtgrids-line|{tmpl!r}|{i}")
-        nf = M.count_fields(M.template_items(tmpl), {form: 1})
-        ok = nf is not None and nf == Lin(c=len(data))
-        chk(ok, f"wtgrids: the template starting `{(line_layout(lines[0], 8)['head'] or '')}` ({len(lines)} line(s)) consumes exactly the {len(data)} vectors passed",
-            e.node, None if ok else {"fields": show(nf) if nf is not None else None, "vectors": len(data)}, key=f"wtgrids-args|{tmpl!r}")
+                    if key not in once.seen:
+                        once.seen.add(key)
+                        ctx.error(inst, e.node, repr(tmpl))
+                    continue
+                ok = len(head) == 8 and not lay["stray"] and lay["fields"] <= per and all(w == W for w in lay["widths"])
+                chk(ok, inst, e.node, None if ok else dict({k: (v if k != "widths" else [str(w) for w in v]) for k, v in lay.items()}, **{"when form renders in": Wf}),
+                    key=key)
+            nf = M.count_fields(M.template_items(tmpl), {form: 1})
+            ok = nf is not None and nf == Lin(c=len(data))
+            chk(ok, f"wtgrids: the template starting `{(line_layout(lines[0], Wf)['head'] or '')}` ({len(lines)} line(s)) consumes exactly the {len(data)} vectors passed",
+                e.node, None if ok else {"fields": show(nf) if nf is not None else None, "vectors": len(data)}, key=f"wtgrids-args|{tmpl!r}|{Wf}")
     g.report(ctx, "wtgrids: a user `form` must render in 8 or 16 characters", fn)
 
 
@@ -852,64 +842,76 @@ def r2_nonempty_vector(ctx):
     for q, f2 in sorted(m.funcs.items()):
         if not any(isinstance(c, ast.Call) and (dotted(c.func) or "").split(".")[-1] == "vecwrite" for c in walk_no_nested(f2)):
             continue
-        if not any(isinstance(c, ast.Call) and (dotted(c.func) or "").split(".")[-1] == "vecwrite"
-                   and any(isinstance(a, ast.Subscript) and isinstance(a.slice, ast.Slice) for a in c.args) for c in walk_no_nested(f2)) \
-                and q != "wttabled1":
-            continue
         try:
-            E2 = engine(ctx, BULK, q)
+            E0 = engine(ctx, BULK, q)
         except Unsupported as ex:
             ctx.error(f"{q}: vecwrite call sites", f2, str(ex))
             continue
-        by_node = {}
-        for e in E2.events("call"):
+        # case split on the rendered width of a user format, when the function validates it against a few values
+        runs = [("", E0)]
+        atoms = []
+        for e in E0.events("call"):
             if is_vecwrite(e):
-                by_node.setdefault(id(e.node), []).append(e)
-        for evs in by_node.values():
-            sl = [a for a in vecwrite_parts(evs[0])[2] if isinstance(a, tuple) and a and a[0] == "slice"]
-            if not sl:
-                continue
-            if all(M.is_int_const(lin(a[3])) for a in sl if isinstance(a[3], Lin)) and all(isinstance(a[3], Lin) for a in sl):
-                continue
-            nsites += 1
-            verdict, detail, label = True, None, ""
-            for e in evs:
-                # domain of the property: tables and lists of at least one entry
-                dom = tuple((("cmp", "GtE", lin(at), Lin(c=1)), True) for a in vecwrite_parts(e)[2] if isinstance(a, tuple) and a[:1] == ("slice",)
-                            for at in M.free_symbols(E2.slice_len(a, e.facts) or Lin()) if isinstance(at, tuple) and at[0] == "len")
-                e = M.Event(e.kind, e.node, e.d, e.facts + tuple(f for f in dict.fromkeys(dom)), e.loops, e.seq)
-                flen = flen_atoms(e.facts, "form")
-                if flen:
-                    vals = M.possible_values(flen[0], e.facts, extra=(16, 32), lo=0)[0]
-                    label = " [large field]" if vals == {32} else " [small field]" if vals == {16} else ""
-                for a in [x for x in vecwrite_parts(e)[2] if isinstance(x, tuple) and x and x[0] == "slice"]:
-                    ln = E2.slice_len(a, e.facts)
-                    if ln is None:
-                        verdict, detail = None, f"length of {show(a)}"
+                for at in flen_atoms(e.facts, "form"):
+                    if at not in atoms:
+                        atoms.append(at)
+        if len(atoms) == 1:
+            vals = set()
+            for e in E0.events("call"):
+                if is_vecwrite(e):
+                    ok_, cand = M.possible_values(atoms[0], e.facts, lo=0)
+                    vals |= ok_ if len(ok_) < len(cand) - 2 else set()
+            if vals and len(vals) <= 4:
+                names = {(2, 32): " [large field]", (2, 16): " [small field]"}
+                runs = [(names.get((atoms[0][2], v_), f" [form width {v_}]"), engine(ctx, BULK, q, pins={atoms[0]: v_})) for v_ in sorted(vals, reverse=True)]
+        for label, E2 in runs:
+            by_node = {}
+            for e in E2.events("call"):
+                if is_vecwrite(e):
+                    by_node.setdefault(id(e.node), []).append(e)
+            for evs in by_node.values():
+                sl = [a for a in vecwrite_parts(evs[0])[2] if isinstance(a, tuple) and a and a[0] == "slice"]
+                if not sl:
+                    continue
+                if all(isinstance(a[3], Lin) and M.is_int_const(a[3]) for a in sl):
+                    continue
+                nsites += 1
+                verdict, detail = True, None
+                for e in evs:
+                    # domain of the property: tables and lists of at least one entry
+                    dom = tuple((("cmp", "GtE", lin(at), Lin(c=1)), True) for a in vecwrite_parts(e)[2] if isinstance(a, tuple) and a[:1] == ("slice",)
+                                for at in M.free_symbols(E2.slice_len(a, e.facts) or Lin()) if isinstance(at, tuple) and at[0] == "len")
+                    e = M.Event(e.kind, e.node, e.d, e.facts + tuple(f for f in dict.fromkeys(dom)), e.loops, e.seq)
+                    for a in [x for x in vecwrite_parts(e)[2] if isinstance(x, tuple) and x and x[0] == "slice"]:
+                        ln = E2.slice_len(a, e.facts)
+                        if ln is None:
+                            verdict, detail = None, f"length of {show(a)}"
+                            break
+                        lo, _ = M.bounds(ln - 1, e.facts)
+                        if lo is not None and lo >= 0:
+                            continue
+                        syms = [s_ for s_ in M.free_symbols(ln) if isinstance(s_, tuple) and s_[0] == "len"]
+                        w = M.find_witness(syms, e.facts, lambda asg_, ln=ln: (M.lin_eval(ln, asg_) is not None and M.lin_eval(ln, asg_) <= 0),
+                                           ranges={s_: (1, 48) for s_ in syms}) if syms else None
+                        if w is not None:
+                            verdict = False
+                            detail = (f"`{show(a)}` is empty for {', '.join(show(k) + ' = ' + str(v) for k, v in w.items())}; vecwrite then indexes an empty array "
+                                      "(IndexError): a table with < 4 points (small field) or 1 point (large field) cannot be written")
+                        else:
+                            verdict, detail = None, f"cannot bound the length {show(ln)} of {show(a)}"
                         break
-                    lo, _ = M.bounds(ln - 1, e.facts)
-                    if lo is not None and lo >= 0:
-                        continue
-                    syms = [s_ for s_ in M.free_symbols(ln) if isinstance(s_, tuple) and s_[0] == "len"]
-                    w = M.find_witness(syms, e.facts, lambda asg_, ln=ln: (M.lin_eval(ln, asg_) is not None and M.lin_eval(ln, asg_) <= 0),
-                                       ranges={s_: (1, 48) for s_ in syms}) if syms else None
-                    if w is not None:
-                        verdict = False
-                        detail = (f"`{show(a)}` is empty for {', '.join(show(k) + ' = ' + str(v) for k, v in w.items())}; vecwrite then indexes an empty array "
-                                  "(IndexError): a table with < 4 points (small field) or 1 point (large field) cannot be written")
-                    else:
-                        verdict, detail = None, f"cannot bound the length {show(ln)} of {show(a)}"
-                    break
-                if verdict is not True:
-                    break
-            shown = show(sl[0])
-            inst = (f"{q}{label}: the vectorised write of `{shown}` ... is executed only when there is at least one full line")
-            if verdict is None:
-                ctx.error(inst, evs[0].node, detail)
-            else:
-                ctx.check(verdict, inst, evs[0].node, detail, key=f"C13-R2|{q}|{label.strip(' []')}|unguarded vecwrite")
+                    if verdict is not True:
+                        break
+                inst = (f"{q}{label}: the vectorised write of `{show(sl[0])}` ... is executed only when there is at least one full line")
+                if verdict is None:
+                    ctx.error(inst, evs[0].node, detail)
+                else:
+                    ctx.check(verdict, inst, evs[0].node, detail, key=f"C13-R2|{q}|{label.strip(' []')}|unguarded vecwrite")
     ctx.assume("C13-R2: the sequences handed to the writers have at least one entry (the property quantifies over lengths 1..n)")
-    ctx.check(nsites >= 2, f"non-empty vector contract bound to {nsites} call sites", BULK + ":1", nontrivial=False)
+    if nsites >= 2:
+        ctx.ok(f"non-empty vector contract bound to {nsites} call sites", BULK + ":1", nontrivial=False)
+    else:
+        ctx.error(f"non-empty vector contract bound to {nsites} call sites (at least 2 expected)", BULK + ":1")
 
 
 # ====================================================================================================================== R3
